@@ -265,8 +265,7 @@ theorem callbackOk_iff (t : List Entry) :
     · rfl
 
 theorem writesOk_iff (t : List Entry) :
-    writesOk t = true ↔ ∀ en ∈ t, ∀ e ∈ en.events, ∀ f, e.kind = Kind.acc f true →
-      (protectedAcc en e f = true ∨ f = Field.urh_was_closed) := by
+    writesOk t = true ↔ ∀ en ∈ t, ∀ e ∈ en.events, ∀ f, e.kind = Kind.acc f true → writeOk en e f = true := by
   simp only [writesOk, List.all_eq_true]
   constructor
   · intro h en hen e he f hk
